@@ -50,6 +50,9 @@ func mkTerm(op string, w int, args ...*Term) *Term {
 	}
 	rb.WriteByte(')')
 	t := &Term{id: U.nterm, Op: op, Args: args, W: w, key: rb.String()}
+	if len(t.key) > 400 {
+		t.key = fmt.Sprintf("%s#%d(%s…)", op, t.id, t.key[:80])
+	}
 	U.terms[k] = t
 	return t
 }
@@ -249,6 +252,9 @@ func (v *BV) Term() *Term {
 		t.W = v.W
 	}
 	t.key = describeBits(t.bv)
+	if len(t.key) > 160 {
+		t.key = fmt.Sprintf("bits#%d{%s…}", t.id, t.key[:60])
+	}
 	U.terms[k] = t
 	return t
 }
